@@ -156,6 +156,47 @@ let show_datum (d : datum) : string =
 let show_vres = function POk v -> "ok " ^ string_of_value v | PErr e -> show_xerr e
 let show_dres = function POk d -> "ok " ^ show_datum d | PErr e -> show_xerr e
 
+(* ---- Ref accessors: the transcript of a full walk with list_iter (peek,
+   is_empty, next), vector_iter and as_pair ---- *)
+exception Ref_panic
+let rec walk_ref (b : Buffer.t) (r : dref) : unit =
+  Buffer.add_string b ("{" ^ show_span (ref_span r));
+  Buffer.add_string b " L:";
+  (match ref_list_iter r with
+   | None -> Buffer.add_char b '-'
+   | Some c ->
+       Buffer.add_char b '[';
+       let cur = ref c in
+       let fin = ref false in
+       while not !fin do
+         let pk = ref_list_peek !cur in
+         let emp = ref_list_is_empty !cur in
+         Buffer.add_char b (match pk with Some _ -> 'p' | None -> '-');
+         Buffer.add_char b (if emp then 'e' else 'n');
+         (match ref_list_next !cur with
+          | Panic -> raise Ref_panic
+          | Val (o, c') ->
+              cur := c';
+              (match o with
+               | Some x -> walk_ref b x
+               | None -> Buffer.add_char b '_'; if ref_list_is_empty c' then fin := true))
+       done;
+       Buffer.add_char b ']');
+  Buffer.add_string b " V:";
+  (match ref_vector_iter r with
+   | None -> Buffer.add_char b '-'
+   | Some items -> Buffer.add_char b '['; List.iter (walk_ref b) items; Buffer.add_char b ']');
+  Buffer.add_string b " P:";
+  (match ref_as_pair r with
+   | Panic -> raise Ref_panic
+   | Val None -> Buffer.add_char b '-'
+   | Val (Some (ra, rd)) -> Buffer.add_string b ("(" ^ show_span (ref_span ra) ^ "," ^ show_span (ref_span rd) ^ ")"));
+  Buffer.add_char b '}'
+
+let show_refwalk = function
+  | POk d -> (let b = Buffer.create 64 in try walk_ref b (datum_ref d); "ok " ^ Buffer.contents b with Ref_panic -> "PANIC")
+  | PErr e -> show_xerr e
+
 let read_calls (s : string) : call list =
   List.init (String.length s) (fun i -> match s.[i] with
     | 'v' -> CallNextValue | 'd' -> CallNextDatum | 'V' -> CallExpectValue
@@ -420,6 +461,11 @@ let run_case (line : string) : string =
       let ro = read_ro t in
       let ev = read_events t in
       show_dres (datum_from_trait ro alpha fast_float std_parse k ev)
+  | "refwalk" ->
+      let k = read_src t in
+      let ro = read_ro t in
+      let ev = read_events t in
+      show_refwalk (datum_from_trait ro alpha fast_float std_parse k ev)
   | "iter" ->
       (* iter <src> <ro> <v|d> <cap> <events> *)
       let k = read_src t in
